@@ -1974,9 +1974,66 @@ func genDeposits(o hreg.Opts, rng *rand.Rand, w *bufio.Writer) {
 	}
 }
 
+// genDepositPermutations: k siblings cloned from ONE (state, context) each process a random permutation of the
+// SAME set of new-validator deposits, interleaved with each other (A:X, B:Y, A:Y, B:X …), followed by repeats /
+// top-ups of those keys; every sibling is compared, after each of its steps, with its own reference — a copy
+// made with a from-scratch context before anything happened — that applied the same sequence in isolation.
+func genDepositPermutations(o hreg.Opts, rng *rand.Rand, w *bufio.Writer) {
+	st := o.Stats
+	n := o.Pick(12, 200)
+	forks := []string{"phase0", "altair", "bellatrix", "capella", "deneb"}
+	amounts := []uint64{32000000000, 17000000000, 1000000000, 31000000000, 40000000000}
+	for i := 0; i < n; i++ {
+		fmt.Fprintln(w, "reset")
+		fmt.Fprintf(w, "live a %s %d\n", forks[i%len(forks)], rng.Int63n(1000))
+		k := 2 + rng.Intn(2) // siblings (the original is one of them)
+		sib := []string{"a", "b", "c"}[:k]
+		for _, h := range sib[1:] {
+			fmt.Fprintf(w, "copy a %s\n", h)
+		}
+		for _, h := range sib {
+			fmt.Fprintf(w, "fresh a r%s\n", h)
+		}
+		nk := 2 + rng.Intn(2) // keys
+		st.Add("deposit-permutation", fmt.Sprintf("%d-siblings-%d-keys", k, nk))
+		// per sibling: a permutation of the keys, then repeats and top-ups
+		seqs := make([][]string, k)
+		for j := range seqs {
+			for _, key := range rng.Perm(nk) {
+				seqs[j] = append(seqs[j], fmt.Sprintf("dep %d %d", 20+key, amounts[rng.Intn(len(amounts))]))
+			}
+			for r := 0; r < 1+rng.Intn(3); r++ {
+				seqs[j] = append(seqs[j], fmt.Sprintf("dep %d %d", 20+rng.Intn(nk), amounts[rng.Intn(len(amounts))]))
+			}
+			if rng.Intn(3) == 0 {
+				seqs[j] = append(seqs[j], fmt.Sprintf("slots %d", []int{1, 8, 9}[rng.Intn(3)]))
+				seqs[j] = append(seqs[j], fmt.Sprintf("dep %d %d", 20+rng.Intn(nk), amounts[rng.Intn(len(amounts))]))
+			}
+		}
+		// interleave: repeatedly pick a sibling that still has steps
+		pos := make([]int, k)
+		for {
+			var live []int
+			for j := range seqs {
+				if pos[j] < len(seqs[j]) {
+					live = append(live, j)
+				}
+			}
+			if len(live) == 0 {
+				break
+			}
+			j := live[rng.Intn(len(live))]
+			op := seqs[j][pos[j]]
+			pos[j]++
+			fmt.Fprintf(w, "mut %s %s\nmut r%s %s\nsame %s r%s\n", sib[j], op, sib[j], op, sib[j], sib[j])
+		}
+	}
+}
+
 func genCopies(o hreg.Opts, rng *rand.Rand, w *bufio.Writer) {
 	genSiblings(o, rng, w)
 	genDeposits(o, rng, w)
+	genDepositPermutations(o, rng, w)
 	st := o.Stats
 	n := o.Pick(25, 500)
 	forks := []string{"phase0", "altair", "bellatrix", "capella", "deneb"}
